@@ -428,7 +428,8 @@ Section Step.
     let s := w_s w in
     let p := resolve (s_cwd s) arg in
     if String.eqb name "user" then
-      (* notify_logout; del user; del logged; lookup *)
+      (* notify_logout; del user; del logged; del rename_from; lookup *)
+      let s := set_rnfr s None in
       match find_user users 0 arg None with
       | None => (set_sess w (set_login s None false (s_cwd s)), mk_out [code "530"], true)
       | Some i =>
